@@ -52,7 +52,7 @@ func (e *VEnv) snap() vSnap {
 // invariants asserts the two global token invariants (C02, C04) under the given assertion-id prefix.
 func (e *VEnv) invariants(p string) {
 	zz.Assert(p+".supply==sum-of-balances", e.Supply().Equal(e.SumBalances()))
-	zz.Assert(p+".pool==sum-of-stake", e.Pool().Equal(e.SumStake()))
+	zz.Assert(p+".pool==sum-of-stake", e.Pool().Equal(e.SumStake().Add(e.Direct)))
 	nonneg := true
 	for _, acc := range e.AK.GetAllAccounts(e.Ctx) {
 		if acc.GetCoins().AmountOf(VDenom).IsNegative() {
